@@ -293,12 +293,38 @@ def run_shard(ctx):
                     ctx.case(key, nontrivial(log, data, vs["frames"]),
                              sample={"source": kind, "schedule": sname, "delimited": vs["delimited"], "bytes": len(data),
                                      "read_log_head": (log or [])[:8]})
+            # transport FAILURES are not structure either: a read that raises must not be taken for the end of the stream
+            if vs["delimited"] and len(vs["frames"]) >= 2:
+                for exc_type in (ConnectionResetError, BrokenPipeError, ConnectionAbortedError, TimeoutError, OSError):
+                    b0 = vs["frames"][rng.randrange(len(vs["frames"]) - 1)]["span"][1]
+                    fail_at = b0 if rng.random() < .6 else rng.randint(1, len(data) - 1)
+                    buffered = rng.random() < .5
+                    raw = sources.FailingRaw(data, rng.choice([[1 << 20], [7], [1]]), fail_at, exc_type)
+                    got, exc2 = parse_from(integ, entry, io.BufferedReader(raw) if buffered else raw)
+                    ctx.observe("transport-failure-runs")
+                    ctx.observe(f"transport-failure:{exc_type.__name__}")
+                    if exc2 is None and got != base:
+                        ctx.violation({"clause": "transport-failure-taken-for-end-of-stream", "integration": integ, "entry": entry,
+                                       "source": "failing-raw" + ("-buffered" if buffered else ""), "schedule_name": "n/a",
+                                       "schedule": [], "first_read": None, "bytes": data.hex(), "fail_at": fail_at,
+                                       "exception": exc_type.__name__, "delimited": True, "producer": vs["producer"],
+                                       "summary": f"{integ}:{entry}: the source raised {exc_type.__name__} after {fail_at} of {len(data)} "
+                                                  f"bytes; the parse ENDED NORMALLY with {len(got)} of {len(base)} events"})
+                    ctx.case((gen.case_hash(data), "failing", exc_type.__name__, fail_at), True,
+                             sample={"source": "failing-raw", "exception": exc_type.__name__, "fail_at": fail_at, "bytes": len(data)})
     finally:
         import shutil
         shutil.rmtree(tmpdir, ignore_errors=True)
 
 
 def replay(w: dict):
+    if w.get("clause") == "transport-failure-taken-for-end-of-stream":
+        data = bytes.fromhex(w["bytes"])
+        integ = w.get("integration", "generic")
+        base, _e = parse_from(integ, w["entry"], io.BytesIO(data))
+        raw = sources.FailingRaw(data, [7], w["fail_at"], getattr(__import__("builtins"), w["exception"]))
+        got, exc2 = parse_from(integ, w["entry"], io.BufferedReader(raw) if w["source"].endswith("buffered") else raw)
+        return {"clause": w["clause"], "summary": "still ends normally"} if exc2 is None and got != base else None
     data = bytes.fromhex(w["bytes"])
     tmpdir = tempfile.mkdtemp(prefix="rv-c09-")
     try:
